@@ -363,6 +363,10 @@ pub fn judge(p: &Program) -> Outcome {
             // scoped reference evaluation.
             let out = c02::judge(p, false);
             match out.violation {
+                // Collisions of paths / @names are C02's business (D6, D7), not binding.
+                Some(_) if refsem::last_notes().iter().any(|n| n.contains("path") || n.contains("@name")) => {
+                    Outcome::ok("program with a path or @name collision (see C02)", None)
+                }
                 Some(mut v) => {
                     v.signature = format!("evaluation does not honour lexical binding | {}", v.signature);
                     Outcome {
@@ -389,7 +393,7 @@ impl Engine for C08 {
             Phase::new("programs with <= 1 declaration", json!({"k":1,"full":true})),
             Phase::new("programs with 2 declarations (reduced body menu)", json!({"k":2,"full":false})),
         ];
-        v.push(Phase::new("module fragments: imports, qualifiers, sub-directories, relative spellings (F8), scoping (F5)", json!({"frags":[7,4]})));
+        v.push(Phase::new("module fragments: imports, qualifiers, sub-directories, relative spellings (F8), scoping (F5), collisions (F10)", json!({"frags":[7,4,9]})));
         if tier == Tier::Thorough {
             v.push(Phase::new("programs with 2 declarations (full body menu)", json!({"k":2,"full":true})));
             v.push(Phase::new("programs with 3 declarations (small menu: 4 heads x 10 bodies)", json!({"k":3,"full":false,"small":true})));
